@@ -257,6 +257,9 @@ func runCheck(id, tier string, seed int64, only string) int {
 			if s.Outcome != "ok" && s.Outcome != "done" {
 				continue
 			}
+			if s.Scheduled {
+				continue // depends on the map iteration order the engine chose: the native run would pick its own
+			}
 			rf := replayFile{Harness: rep.Harness, Inputs: s.Inputs, Tier: tierN, Reached: s.Reached, Observed: s.Observed, Outcome: s.Outcome, Property: id, Tables: s.Tables}
 			if s.ObservedSymbolic {
 				rf.Observed = nil
